@@ -134,6 +134,51 @@ def handler(case):
                                                f"demand in increment {i} is ({gotp[i]}, {gotq[i]}), sum of the resampled profiles x customers is ({float(wantp[i])}, {float(wantq[i])})"))
                 break
         return dict(ops=ops, impl=[o for o in outs], viols=viols, nontrivial=("prepare-multi", m, len(case["cats"]), any(len(c["p"]) == m for c in case["cats"])), tag="prepare-multi")
+    if k == "prepare-system":
+        # the entry point the simulations use: prepare_system(start, stop, step) on a built system whose load points and production
+        # unit carry non-constant profiles; also for periods that are not a whole number of steps.  Every profile is resampled to
+        # exactly one value per increment of the returned time array, with the values the resampling rule prescribes.
+        from relsad.simulation.system_config import prepare_system
+        from relsad.Time import Time, TimeStamp
+        from . import net, c17
+        ps = net.build(dict(case["spec"], exact=False, nprof=len(case["prof"][0])))
+        loads = [b for b in ps.buses if b.pload_data]
+        for j, b in enumerate(loads):
+            pr = case["prof"][j % len(case["prof"])]
+            b.pload_data = [np.array([float(F(x)) for x in pr])]
+            b.qload_data = [np.array([float(F(x)) / 2 for x in pr])]
+        for P in ps.productions:
+            P.pprod_data = np.array([float(F(x)) for x in case["prof"][-1]]); P.qprod_data = np.array([float(F(x)) / 4 for x in case["prof"][-1]])
+        st = case["start"]; total = st[0] * 1440 + st[1] * 60 + st[2] + case["period_min"]
+        start = TimeStamp(day=st[0], hour=st[1], minute=st[2])
+        stop = TimeStamp(day=total // 1440, hour=(total % 1440) // 60, minute=total % 60)
+        u = case["unit"]
+        step = Time(float(F(case["step_min"]) * 60 / c17.FACT[u]), c17.U(u))
+        ta = prepare_system(ps, start, stop, step, c17.U(u))
+        n = len(ta)
+        if n != case["period_min"] // case["step_min"]:
+            viols.append(("prepare.increments", f"period {case['period_min']} min, step {case['step_min']} min: {n} increments"))
+        ops = [f"prof interp {flist([F(x) for x in pr])} {n}" for pr in case["prof"]]
+        from .common import run_driver
+        outs = run_driver(ops) if n else []
+        rows = [[F(x) for x in o.split(",")] if o != "-" else [] for o in outs]
+        what = f"period {case['period_min']} min from {st}, step {case['step_min']} min written in {c17.U(u).name} ({n} increments), profiles of {len(case['prof'][0])} values"
+        for j, b in enumerate(loads):
+            got = [float(x) for x in b.pload_data[0]]
+            want = [float(x) for x in rows[j % len(case["prof"])]] if n else []
+            if len(got) != n:
+                viols.append(("prepare.system-length", f"{what}: load profile of {b.name} resampled to {len(got)} values"))
+            elif any(abs(a - w) > 1e-9 * max(1, abs(w)) for a, w in zip(got, want)):
+                viols.append(("prepare.system-values", f"{what}: load profile of {b.name} is {got[:6]}..., the resampling rule gives {want[:6]}..."))
+            if viols:
+                break
+        for P in ps.productions:
+            got = [float(x) for x in P.pprod_data]
+            want = [float(x) for x in rows[-1]] if n else []
+            if len(got) != n or any(abs(a - w) > 1e-9 * max(1, abs(w)) for a, w in zip(got, want)):
+                viols.append(("prepare.system-prod", f"{what}: production profile of {P.name} is {got[:6]}... ({len(got)} values), the resampling rule gives {want[:6]}..."))
+        return dict(ops=ops if n else [], impl=[o for o in outs], viols=viols[:3],
+                    nontrivial=("prepare-system", case["period_min"] % case["step_min"] == 0, u, min(n, 30), bool(ps.productions)), tag="prepare-system")
     if k == "prepare-prod":
         # the whole production path: add_prod_data, prepare_prod_data (resampling), then set_prod in every increment:
         # production = min(resampled profile value, rating)  -  capping and resampling do not commute
@@ -174,6 +219,8 @@ def compare(case, m, i):
                    for v, g, gq in zip(vals, got, gotq))
     if case["kind"] == "prepare-multi":
         return m == i
+    if case["kind"] == "prepare-system":
+        return True          # the model's values are compared inside the handler (floats against rationals, 1e-9)
     if case["kind"] in ("interp", "prepare"):
         if i[0] is None:
             return True
@@ -231,6 +278,20 @@ def gen(rng, n):
             Lq = rng.choice([None, Lp, Lp, 2 * Lp, rng.choice([2, 6, 12, 48])])
             cats.append({"p": [str(dyadic(rng)) for _ in range(Lp)], "q": None if Lq is None else [str(dyadic(rng, 0, 2)) for _ in range(Lq)]})
         cases.append({"kind": "prepare-multi", "m": m, "n": rng.choice([1, 3, 10]), "cats": cats})
+    for j in range(max(8, n // 10)):
+        # through prepare_system: periods that are / are not a whole number of steps, steps written in several units
+        from . import net
+        spec = net.rand_feeder_spec(rng, max_lines=3, allow_tie=False, allow_mg=False, nfeed=1)
+        spec["feeders"][0]["prod"] = {"0": {"p": "1", "q": "1/4"}}
+        step_min = rng.choice([60, 60, 30, 120, 90])
+        k = rng.randint(2, 12)
+        period = k * step_min + (rng.choice([step_min // 2, step_min // 4, step_min // 3]) if j % 2 == 0 else 0)
+        L = rng.choice([k, k + 1, 24, 6])
+        profs = [[str(dyadic(rng)) for _ in range(L)] for _ in range(2)]
+        a0, b0 = dyadic(rng), F(rng.randint(1, 8), 8)
+        profs.append([str(a0 + b0 * q) for q in range(L)])          # production: a linear ramp
+        cases.append({"kind": "prepare-system", "spec": spec, "prof": profs, "start": [rng.choice([0, 3]), rng.randint(0, 23), rng.choice([0, 30])],
+                      "period_min": period, "step_min": step_min, "unit": rng.choice([3, 3, 2, 1])})
     return cases
 
 
@@ -239,6 +300,7 @@ def run(res):
     n = 150 if res.tier == "quick" else 2500
     res.rule = ("profiles of length 1..400 onto 1..400 increments (constant, linear, random dyadic values; equal, divisible and non-divisible ratios), "
                 "set_load_and_cost with 0-4 categories and 0..500 customers, set_prod around the rating, prepare+read per increment for loads and for production profiles that cross the rating (add, resample, read every increment: min(resampled, rating)); "
+                "prepare-system: built feeders with non-constant load and production profiles through prepare_system(start, stop, step) for periods that are / are not a whole number of steps (steps of 30-120 min written in s / min / h): one value per increment, values by the resampling rule; "
                 "non-trivial = distinct (kind, downsampling?, equal length?, single increment?, divisible?, constant?) signatures")
     run_cases(res, gen(rng, n), handler, compare)
 
